@@ -60,6 +60,32 @@ if P:
         def on_cycle(self, node, path):
             self.cycles += 1
 
+    class SingleNodeVisitor(ForestVisitor):
+        """visit_*_in may return a single node instead of an iterable (documented): always descends into one child only."""
+        def __init__(self):
+            super().__init__()
+            self.cycles = 0
+            self.steps = 0
+
+        def visit_symbol_node_in(self, node):
+            self.steps += 1
+            if self.steps > 20000:
+                raise hs.HarnessTimeout('forest walk did not terminate (step budget)')
+            for c in node.children:
+                return c
+
+        def visit_packed_node_in(self, node):
+            self.steps += 1
+            if self.steps > 20000:
+                raise hs.HarnessTimeout('forest walk did not terminate (step budget)')
+            for c in (node.left, node.right):
+                if c is not None and isinstance(c, SymbolNode):
+                    return c
+            return []
+
+        def on_cycle(self, node, path):
+            self.cycles += 1
+
     class CountingTransformer(ForestTransformer):
         def __init__(self):
             super().__init__()
@@ -106,6 +132,9 @@ def _body(rec, xs):
                 v = CountingVisitor(single_visit=sv)
                 v.visit(root)
                 info['cycles_%s' % sv] = v.cycles
+            snv = SingleNodeVisitor()
+            snv.visit(root)
+            info['single_cycles'] = snv.cycles
             ct = CountingTransformer()
             try:
                 ct.transform(root)
@@ -150,6 +179,8 @@ def _body(rec, xs):
             return hs.fail(rec, 'expanded result differs from the set of derivations', input=key_in, missing=sorted(want - gotset)[:3],
                            extra=sorted(gotset - want)[:3])
         if WHAT == 'forest':
+            if len(got) != len(gotset):
+                return hs.fail(rec, 'the forest encodes a derivation more than once (duplicate alternatives)', input=key_in, trees=len(got), distinct=len(gotset))
             if _canon(shape.of_lark(resolved)) not in want:
                 return hs.fail(rec, 'resolve_ambiguity=True tree is not a derivation', input=key_in, tree=shape.of_lark(resolved))
             if len(ds) == 1 and info['is_ambiguous']:
